@@ -69,7 +69,8 @@ def gen_rows(tier, seed, configs=None, kinds=True, lat_fn=None):
             yield {'ell': ell, 'prj': prj, 'zone': 0, 'lat': lat, 'lons': al, 'kind': 'float'}
         for z in explicit_zones(prj, tier):
             cm = cm_of(prj, z)
-            lons = uniq([cm + d for d in OFFSETS if -180.0 <= cm + d <= 180.0])
+            # offsets are taken the short way round: zone 1 with a longitude of +173 deg is 10 deg west of its central meridian
+            lons = uniq([cm + d if -180.0 <= cm + d <= 180.0 else ((cm + d + 180.0) % 360.0) - 180.0 for d in OFFSETS])
             for lat in lats:
                 yield {'ell': ell, 'prj': prj, 'zone': z, 'lat': lat, 'lons': lons, 'kind': 'float'}
     if kinds:
@@ -138,6 +139,7 @@ def forward_row(case, rec):
             cms.append(float('nan'))
     lats = np.array([res[i]['latf'] for i in idx])
     dl = np.array([res[i]['lonf'] for i in idx]) - np.array(cms)
+    dl = np.where(np.abs(dl) > 180.0, (dl + 180.0) % 360.0 - 180.0, dl)      # the short way round across the 180-degree meridian
     n_, e_, k_, g_ = oracle_tm.forward_np(lats, dl, a, invf, k0)
     for j, i in enumerate(idx):
         d = res[i]
